@@ -465,6 +465,21 @@ class LayerFix(Fixture):
             kw = dict(kernel_post=exp_stdp_post_kernel, kernel_pre=exp_stdp_pre_kernel,
                       kernel_post_kwargs=dict(learning_rate=k["lrp"], time_constant=k["tc1"]),
                       kernel_pre_kwargs=dict(learning_rate=k["lrm"], time_constant=k["tc2"]), batch_reduction=torch.sum)
+            if n == "KernelSTDP" and not self.delayed:
+                # custom kernels whose SIGN changes with the time difference (the shipped exponential kernels have one
+                # sign each): samples may then contribute with opposite signs to the same synapse, and the potentiating
+                # / depressing parts of a batched step must still be the sums of the per-sample parts
+                flip = 1.5 * self.dt
+
+                def hat_post(diff, learning_rate, time_constant, **kwargs):
+                    sgn = torch.where(diff.abs() < flip, 1.0, -1.0)
+                    return exp_stdp_post_kernel(diff, learning_rate, time_constant) * sgn
+
+                def hat_pre(diff, learning_rate, time_constant, **kwargs):
+                    sgn = torch.where(diff.abs() < flip, 1.0, -1.0)
+                    return exp_stdp_pre_kernel(diff, learning_rate, time_constant) * sgn
+                kw.update(kernel_post=hat_post, kernel_pre=hat_pre)
+                self.desc["kernel"] = "sign-changing"
             if n == "KernelSTDP":
                 return KernelSTDP(delayed=self.delayed, interp_tolerance=1e-3, **kw)
             return (DelayAdjustedKernelSTDP if n == "DelayAdjustedKernelSTDP" else DelayAdjustedKernelSTDPD)(**kw)
